@@ -5,6 +5,7 @@ import (
 	"fmt"
 
 	"vh/fw"
+	"vh/lib"
 	"vh/rec"
 	"vh/spec"
 )
@@ -99,6 +100,9 @@ func c01Eval(c *fw.Ctx, data any) {
 			ok = false
 		}
 	}
+	if !c01Late(c, kind, m) {
+		ok = false
+	}
 	if ok {
 		c.Count("framed_ok", 1)
 	}
@@ -109,4 +113,50 @@ func c01Eval(c *fw.Ctx, data any) {
 	if c.WantSample() && n >= 3 && n <= 6 {
 		c.Sample(map[string]any{"recipe": m, "encoded_bytes": len(b.bytes), "header": fmt.Sprintf("%x", b.bytes[:8])})
 	}
+}
+
+// c01Late repeats the framing check on the same recipe built top-down: variable-size Nicira actions (conntrack, note,
+// learn) are attached while empty and grow afterwards. The size a message reports and the header length it writes are
+// computed when it is encoded, so they must still agree with the bytes produced.
+func c01Late(c *fw.Ctx, kind string, m *rec.Rec) bool {
+	switch m.K {
+	case "flow_mod", "group_mod", "packet_out", "bundle_add":
+	default:
+		return true
+	}
+	var bytes []byte
+	var l0, l1, late int
+	var err, berr error
+	p, pv, st := fw.Recover(func() {
+		msg, n, e := lib.BuildMessageLate(m)
+		late, berr = n, e
+		if e != nil || n == 0 {
+			return
+		}
+		l0 = int(msg.Len())
+		bytes, err = msg.MarshalBinary()
+		l1 = int(msg.Len())
+	})
+	if p {
+		c.Violation(kind, "panic", "late-growth:"+fw.LibFrame(st), pv+"\n"+fw.TrimStack(st))
+		return false
+	}
+	if berr != nil {
+		c.Inconclusive("late-growth builder: " + berr.Error())
+		return true
+	}
+	if late == 0 {
+		return true
+	}
+	c.Count("late_growth_histories", 1)
+	if err != nil {
+		c.Violation(kind, "encode-error", "late-growth", err.Error())
+		return false
+	}
+	ok := c01Frame(c, kind, m, bytes, "late-growth-")
+	if l0 != len(bytes) || l1 != len(bytes) {
+		c.Violation(kind, "size", "late-growth-len", fmt.Sprintf("%d action(s) grew after being attached: Len() = %d before and %d after encoding, %d bytes produced", late, l0, l1, len(bytes)))
+		ok = false
+	}
+	return ok
 }
